@@ -24,9 +24,22 @@ def _extra(t):
     return t.get("callee_name") in PASS and c.startswith(("core::", "alloc::", "std::"))
 
 
-def _is_lift(t):
+def _is_lift(t, f=None):
+    """a lifting call: bind / bind_many of the focus module - or, by what it takes, a call of core_lang that is handed the subject and a
+    boxed continuation producing a focused statement (the same functions after a rename or a move)"""
     ck = t.get("callee_key") or ""
-    return t.get("callee_name") in ("bind", "bind_many") and (ck.startswith(FOCUS) or (t.get("callee_trait") or "").startswith(FOCUS[:-2]))
+    if t.get("callee_name") in ("bind", "bind_many") and (ck.startswith(FOCUS) or (t.get("callee_trait") or "").startswith(FOCUS[:-2])):
+        return True
+    if f is None or not (ck.startswith(("scc_core_lang::", "<scc_core_lang::")) or (t.get("callee_trait") or "").startswith("scc_core_lang::")):
+        return False
+    if t.get("callee_name") in ("new", "from", "into", "call_once", "call") or len(t.get("args") or []) < 2:
+        return False
+    for a in t["args"][1:]:
+        if a.get("pl") and not a["pl"]["p"]:
+            ty = f["locals"][a["pl"]["l"]]["ty"]
+            if "FnOnce" in ty and "dyn" in ty and "FsStatement" in ty:
+                return True
+    return False
 
 
 def _closure_of(fn, local, depth=0):
@@ -98,7 +111,7 @@ def rule_bindorder(ctx):
         for bi, t in fn.calls():
             if bi not in fn.reach:
                 continue
-            lift = _is_lift(t)
+            lift = _is_lift(t, f)
             subj = None
             if lift:
                 r0 = op_root(t["args"][0]) if t["args"] else None
@@ -131,7 +144,7 @@ def rule_bindorder(ctx):
                     pass
 
     tops = sorted(k for k, f in fx.fns.items() if f["crate"] == "scc_core_lang" and "{closure" not in k and "{promoted" not in k
-                  and any(b["term"]["k"] == "call" and _is_lift(b["term"]) for b in f["blocks"]))
+                  and any(b["term"]["k"] == "call" and _is_lift(b["term"], f) for b in f["blocks"]))
     for k in tops:
         before = len(res.violations)
         explore(k, None, None, k, [])
